@@ -62,6 +62,7 @@ type Env struct {
 	groups map[Loc]*egState
 	groupWrites map[Loc][]map[Loc]bool
 	timeTexts []*Term
+	realFB    bool // execute the real filebuffer code (E-pages) instead of the E-flat intrinsics
 	served map[string]string
 	nrand  int
 }
@@ -196,6 +197,9 @@ func (m *Machine) vrtEnvCall(name string, a []Value) (Value, bool) {
 		return c.Bool(ok), true
 	case "LogLen":
 		return c.IntI(SI64, int64(len(e.log))), true
+	case "RealFileBuffer":
+		e.realFB = true
+		return nil, true
 	case "FrameBegin":
 		m.frameMark = m.frameSerial + 1
 		m.frameViol = nil
@@ -336,6 +340,53 @@ func (m *Machine) envIntrinsic(name string, fn *ssa.Function, args []Value) (Val
 	e := m.env
 	c := m.ctx
 	nilErr := IfaceV{}
+	if e.realFB && strings.Contains(name, "github.com/hnakamur/filebuffer") {
+		// E-pages: only the vector I/O system calls are modelled; paging, bitsets and copying are real code
+		switch name {
+		case "github.com/hnakamur/filebuffer.preadv", "github.com/hnakamur/filebuffer.pwritev":
+			m.stub(name)
+			fo := fileObjOf(args[0])
+			iovs := args[1].(SliceV)
+			off, ok := args[2].(*Term).ConstInt64()
+			if !ok {
+				m.unsupported("vector I/O at a symbolic offset")
+			}
+			if fo == nil || !fo.open {
+				return TupleV{c.IntI(SI64, 0), m.newErr("vector I/O: file already closed", nil)}, true
+			}
+			write := strings.HasSuffix(name, "pwritev")
+			n := int64(0)
+			pos := off
+			for i := 0; i < iovs.len; i++ {
+				iov := m.load(iovs.arr.elems[iovs.off+i]).(SliceV)
+				for k := 0; k < iov.len; k++ {
+					if pos >= int64(len(fo.f.data)) {
+						return TupleV{c.IntI(SI64, n), nilErr}, true
+					}
+					cell := iov.arr.elems[iov.off+k].(*Cell)
+					if write {
+						fo.f.data[pos] = cell.v.(*Term)
+					} else {
+						m.store(cell, fo.f.data[pos])
+					}
+					pos++
+					n++
+				}
+			}
+			if write && n > 0 {
+				fo.f.writes++
+				e.event(fmt.Sprintf("pwritev fd%d off=%d len=%d", fo.id, off, n))
+			}
+			return TupleV{c.IntI(SI64, n), nilErr}, true
+		case "(*github.com/hnakamur/filebuffer.FileBuffer).ReadAt", "(*github.com/hnakamur/filebuffer.FileBuffer).WriteAt":
+			// page numbers must be concrete: resolve a symbolic offset by forking on its feasible values
+			if off, ok := args[2].(*Term); ok && !off.IsConst() && m.merge == nil {
+				v := m.chooseInt(off, -(1 << 30), 1<<30)
+				args[2] = c.IntI(off.Sort, int64(v))
+			}
+		}
+		return nil, false
+	}
 	switch name {
 	case "os.Getpagesize":
 		m.stub(name)
